@@ -47,10 +47,13 @@ SHRINK_LIST_KEYS = ['faults', 'ops']
 CHUNK = 4
 
 PROFILE = H.Profile('c15', nops=(2, 12), final_restart=False,
-                    weights={'add_boot_file': 3, 'add_eltorito': 5, 'add_isohybrid': 3, 'dup_pvd': 0.5, 'restart': 1, 'add_symlink': 8, 'mass_dirs': 0.4, 'mass_files': 0.4},
+                    weights={'add_boot_file': 3, 'add_eltorito': 5, 'add_isohybrid': 3, 'hybrid_setup': 2.5, 'chain_dirs': 2.5, 'dup_pvd': 0.5, 'restart': 1, 'add_symlink': 8, 'mass_dirs': 0.4, 'mass_files': 0.4},
                     sizes=(0, 1, 100, 2047, 2048, 2049, 6000, 20480))
 
 VALUES = ('zero', 'one', 'max', 'size-1', 'size', 'size+1', 'own', 'other', 'random', 'half', 'plus1', 'minus1', 'same-kind', 'same-kind')
+
+
+RUN_STEP_BUDGET = 4000000     # interpreter events one run may spend on damaged variants (a parent with a large boot file costs 0.3M per open)
 
 
 class BudgetExceeded(BaseException):
@@ -77,16 +80,16 @@ def generate(seed, tier='quick'):
             f = [{'kind': 'copy-sector', 'src': r.random(), 'dst': r.random()}]
         elif k < 0.45:
             f = [{'kind': 'stale-sector', 'pick': r.random()}]
-        elif k < 0.86:
+        elif k < 0.80:
             f = [{'kind': 'field', 'pick': r.random(), 'value': r.choice(VALUES), 'both_endian': r.random() < 0.7, 'refix': r.random() < 0.7, 'rnd': r.getrandbits(32)}]
             if r.random() < 0.3:
                 f.append({'kind': 'field', 'pick': r.random(), 'value': r.choice(VALUES), 'both_endian': r.random() < 0.7, 'refix': r.random() < 0.7, 'rnd': r.getrandbits(32)})
-        elif k < 0.845:
+        elif k < 0.81:
             f = [{'kind': 'seek-end'}]
-        elif k < 0.855:
+        elif k < 0.835:
             f = [{'kind': 'alias-dirs', 'seed': r.getrandbits(32), 'p': r.choice((0.3, 1.0, 1.0)), 'to': r.choice(('child', 'child', 'self', 'parent'))}]
-        elif k < 0.865:
-            f = [{'kind': 'dup-chain', 'copies': r.choice((1, 2, 3))}]
+        elif k < 0.86:
+            f = [{'kind': 'dup-chain', 'copies': r.choice((1, 3, 1000, 1000))}]      # 1000: as many as fit in the directory's last sector
         elif k < 0.9:
             f = [{'kind': 'struct-extremes', 'pick': r.random(), 'seed': r.getrandbits(32)}]
         else:
@@ -302,10 +305,17 @@ def apply_faults(flist, data, prev_data, writes, fields, boundaries, ctx):
                     end = max(c.off + c.length for c in kids)
                     rec = bytes(ba[child.off:child.off + child.length])
                     room_end = (end // 2048 + 1) * 2048
+                    idlen = rec[32]
                     for i in range(spec['copies']):
-                        if end + len(rec) > room_end:
+                        if end + len(rec) > room_end or idlen < 1:
                             break
-                        ba[end:end + len(rec)] = rec
+                        alt = bytearray(rec)
+                        # the copies differ in the last character of the identifier, as the names in one directory must
+                        ch = b'0123456789ABCDEFGHIJKLMNOPQRSTUVWXYZ_'[i % 37]
+                        alt[33 + idlen - 1] = ch if ch != rec[33 + idlen - 1] else 0x21
+                        if idlen >= 2:
+                            alt[33 + idlen - 2] = b'0123456789ABCDEFGHIJKLMNOPQRSTUVWXYZ_'[(i // 37) % 37]
+                        ba[end:end + len(rec)] = alt
                         end += len(rec)
                         touched.append(end)
             except Exception:
@@ -503,12 +513,18 @@ def execute(plan):
                 else:
                     fields, boundaries = field_maps(data, m)
                     spans = sorted((s, s + l) for (k, s, l) in alloc.build(data, m).objects if k != 'file')
-                    step_limit = 50 * base_steps + 2000000
+                    step_limit = min(50 * base_steps + 2000000, max(12000000, 4 * base_steps))
+                    spent = 0
                     for vi, flist in enumerate(plan.get('faults') or []):
+                        if spent > RUN_STEP_BUDGET:
+                            # counted in interpreter events, not wall time, so the cut is the same on every replay
+                            ctx.probes['variants_skipped_run_step_budget'] += 1
+                            continue
                         dmg, ff, label, touched = apply_faults(flist, data, prev, wf.writes, fields, boundaries, ctx)
                         measure_mem = (vi % 6 == 0)
                         res, steps, requested, peak = open_measured(d.pm, d.pexc, dmg, ff, step_limit, measure_mem)
                         ctx.probes['variants_opened'] += 1
+                        spent += steps
                         kinds = '+'.join(sorted(f['kind'] for f in flist))
                         triples.add(label)
                         if any(any(s <= t < e for s, e in spans) for t in touched) or kinds in ('torn-prefix', 'lost-writes', 'truncate', 'random-bytes', 'seek-end'):
